@@ -15,9 +15,17 @@ import (
 
 // g2NsOrigins renders where a *namespace.Namespace value comes from:
 // "ByID(<rendering of the id handed to Core.NamespaceByID>)" or "kind:desc".
-func g2NsOrigins(v ssa.Value) []string {
+func g2NsOrigins(v ssa.Value) []string { return g2NsOriginsF(v, nil) }
+
+// g2NsOriginsF / g2CtxOriginsF: the same, with the value followed through captured
+// variables and the parameters of a followed closure / helper (call chain fr).
+func g2NsOriginsF(v ssa.Value, fr *nfFrame) []string {
 	var out []string
-	for _, o := range eng.Origins(v) {
+	os := eng.Origins(v)
+	if fr != nil {
+		os = nfOrigins(v, fr)
+	}
+	for _, o := range os {
 		if o.Kind == "call" && strings.HasSuffix(o.Desc, "vault.(*Core).NamespaceByID#0") {
 			if ex, ok := o.Val.(*ssa.Extract); ok {
 				if call, ok := ex.Tuple.(*ssa.Call); ok {
@@ -34,12 +42,22 @@ func g2NsOrigins(v ssa.Value) []string {
 
 // g2CtxOrigins renders where a context comes from: "ctxNS{<namespace origin>}"
 // for namespace.ContextWithNamespace(_, ns), else "kind:desc".
-func g2CtxOrigins(v ssa.Value) []string {
+func g2CtxOrigins(v ssa.Value) []string { return g2CtxOriginsF(v, nil) }
+
+func g2CtxOriginsF(v ssa.Value, fr *nfFrame) []string {
 	var out []string
-	for _, o := range eng.Origins(v) {
+	var os []nfOriginF
+	if fr != nil {
+		os = nfOriginsF(v, fr)
+	} else {
+		for _, o := range eng.Origins(v) {
+			os = append(os, nfOriginF{o, nil})
+		}
+	}
+	for _, o := range os {
 		if o.Kind == "call" && strings.HasSuffix(o.Desc, "namespace.ContextWithNamespace") {
 			if call, ok := o.Val.(*ssa.Call); ok && len(call.Call.Args) == 2 {
-				for _, n := range g2NsOrigins(call.Call.Args[1]) {
+				for _, n := range g2NsOriginsF(call.Call.Args[1], o.Fr) {
 					out = append(out, "ctxNS{"+n+"}")
 				}
 				continue
@@ -113,11 +131,12 @@ func runC04Gaps2(c *eng.Ctx) {
 		c.Unresolved("vault.destroyCubbyhole (closure of vault.init calling CubbyholeBackend.revoke)")
 	} else {
 		f := destroyer
-		revs := eng.Calls(f, `vault\.\(\*CubbyholeBackend\)\.revoke$`)
+		revs := nfCalls(f, `vault\.\(\*CubbyholeBackend\)\.revoke$`)
 		c.Floor(f, "CubbyholeBackend.revoke calls", len(revs), 2)
 		nLegacy := 0
-		for _, r := range revs {
-			a := r.Common().Args
+		for _, rv := range revs {
+			r := rv.In
+			a := rv.Args
 			key := a[len(a)-1]
 			c.Clause("R5", "C04.9")
 			c.Prov(f, "cubbyhole key cleared", r, key, `^field:te\.CubbyholeID$`, `^call:salt\.SaltID$`)
@@ -136,9 +155,9 @@ func runC04Gaps2(c *eng.Ctx) {
 			}
 		}
 		c.Floor(f, "legacy-key arm", nLegacy, 1)
-		for _, s := range eng.Calls(f, `vault\.\(\*TokenStore\)\.SaltID$`) {
+		for _, s := range nfCalls(f, `vault\.\(\*TokenStore\)\.SaltID$`) {
 			c.Clause("R5", "C04.9")
-			c.Prov(f, "token salted for the legacy cubbyhole key", s, s.Common().Args[2], `^field:te\.ID$`)
+			c.Prov(f, "token salted for the legacy cubbyhole key", s.In, s.Args[2], `^field:te\.ID$`)
 		}
 		// no silent success: a constant nil is returned only when there is no cubbyhole backend at all
 		c.Clause("R2", "C04.9")
@@ -173,7 +192,12 @@ func runC04Gaps2(c *eng.Ctx) {
 	} else {
 		if f := c.Fn("routing.(*Router).routeCommon"); f != nil {
 			var ds []ssa.Instruction
-			for _, st := range eng.Stores(f, `^req\.ClientToken$`) {
+			reqIdx := nfParamIndex(f, "req")
+			for _, fs := range nfFieldStores(f, c.P.Field("logical.Request.ClientToken")) {
+				st := fs.St
+				if isReq, _ := nfIsParamOf(fs.Base, nil, f, reqIdx); fs.Fn != f || !isReq {
+					continue
+				}
 				if call, ok := st.Val.(*ssa.Call); ok && len(call.Call.Args) == 2 {
 					if ok, _, _ := eng.OriginsMatch(call.Call.Args[1], `^call:salt\.\(\*Salt\)\.SaltID$`); ok {
 						ds = append(ds, st)
@@ -192,8 +216,8 @@ func runC04Gaps2(c *eng.Ctx) {
 			c.Clause("R12", "C04.9")
 			for _, p := range []string{svcP, legP} {
 				n := 0
-				for _, hp := range eng.Calls(f, `^strings\.HasPrefix$`) {
-					if k, ok := hp.Common().Args[1].(*ssa.Const); ok && eng.Expr(k) == `"`+p+`"` {
+				for _, hp := range nfCalls(f, `^strings\.HasPrefix$`) {
+					if nfIsConst(hp.Args[1], nil, `"`+p+`"`) {
 						n++
 					}
 				}
@@ -207,26 +231,27 @@ func runC04Gaps2(c *eng.Ctx) {
 		}
 	}
 	if f := c.Fn("vault.(*CubbyholeBackend).revoke"); f != nil {
-		cvs := eng.Calls(f, `^logical\.ClearView$`)
+		cvs := nfPlain(nfSites(f, `^logical\.ClearView$`))
 		succ := eng.SuccessReturns(f, 0)
 		if c.Floor(f, "ClearView call", len(cvs), 1) && c.Floor(f, "nil-capable returns", len(succ), 1) {
 			c.Clause("R3", "C04.9")
-			c.Before(f, "logical.ClearView", instrsOf(cvs), "nil-capable return", succ)
+			c.Before(f, "logical.ClearView", nfAts(cvs), "nil-capable return", succ)
 			for _, cv := range cvs {
 				c.Clause("R4", "C04.9")
-				fe := eng.CallFailEdges(cv)
 				site := "on{ClearView failed} no nil return"
-				if len(fe) == 0 {
-					c.Violation(f, site, cv.Pos(), "the error of logical.ClearView is never tested: a cubbyhole that could not be cleared is reported destroyed", nil)
-				} else if h := eng.Reach(eng.Query{Fn: f, StartEdges: fe, Target: eng.IsTarget(succ)}); h != nil {
+				// a failure is told by the tests of the error; `return logical.ClearView(...)` hands the
+				// error on unchanged, which is propagating it
+				if h, tested := nfAfterFailure(f, cv, succ, 0, nil); h != nil && !tested {
+					c.Violation(f, site, cv.At.Pos(), "the error of logical.ClearView is never tested: a cubbyhole that could not be cleared is reported destroyed", h.Witness)
+				} else if h != nil {
 					c.Violation(f, site, h.Instr.Pos(), "a nil-capable return is reachable from the failure edge of logical.ClearView", h.Witness)
 				} else {
-					c.OK(f, site, cv.Pos(), "a failed ClearView is returned to revokeInternal")
+					c.OK(f, site, cv.At.Pos(), "a failed ClearView is returned to revokeInternal")
 				}
 				c.Clause("R5", "C04.9")
-				for _, sv := range eng.Calls(f, `^<barrier\.View>\.SubView$`) {
-					a := sv.Common().Args
-					c.Prov(f, "prefix cleared", sv, a[len(a)-1], `^param:saltedToken$`, `^const:"/"$`)
+				for _, sv := range nfCalls(f, `^<barrier\.View>\.SubView$`) {
+					a := sv.Args
+					c.Prov(f, "prefix cleared", sv.In, a[len(a)-1], `^param:saltedToken$`, `^const:"/"$`)
 				}
 			}
 		}
@@ -235,45 +260,59 @@ func runC04Gaps2(c *eng.Ctx) {
 	// ---- C04.10 storeCommon: the parent index lives in the PARENT's namespace under the parent's salt
 	if f := c.Fn("vault.(*TokenStore).storeCommon"); f != nil {
 		parentNS := `^ByID\(vault\.\(\*TokenStore\)\.Lookup\(\)#0\.NamespaceID\)$`
+		// the write is found wherever it stands: in storeCommon, in a closure it calls, in a helper of this
+		// package it calls; view, context and key are followed back through aliases and parameters
+		pEffs := nfEffs(nfViewOps(f, nil, "Put", `vault\.\(\*TokenStore\)\.parentView$`))
 		n := 0
-		for _, p := range eng.Calls(f, `^<barrier\.View>\.Put$`) {
-			arg := g2ViewArg(p, `vault\.\(\*TokenStore\)\.parentView$`)
+		for _, e := range pEffs {
+			arg, afr := nfViewArg(e, `vault\.\(\*TokenStore\)\.parentView$`)
 			if arg == nil {
 				continue
 			}
 			n++
 			c.Clause("R5", "C04.10")
-			g2All(c, f, "namespace of the parent-index view written by storeCommon", p, g2NsOrigins(arg), "parentView(ns)", parentNS)
+			g2All(c, e.Fn, "namespace of the parent-index view written by storeCommon", e.Call.In, g2NsOriginsF(arg, afr), "parentView(ns)", parentNS)
 		}
 		c.Floor(f, "parentView(...).Put", n, 1)
 		n = 0
-		for _, s := range eng.Calls(f, `vault\.\(\*TokenStore\)\.SaltID$`) {
-			a := s.Common().Args
-			if eng.Expr(a[2]) != "entry.Parent" {
-				continue
+		entryIdx := nfParamIndex(f, "entry")
+		parentF := c.P.Field("logical.TokenEntry.Parent")
+		for _, e := range nfEffs(nfMust(f, nil, func(nc nfCall, fr *nfFrame) bool {
+			if !regexp.MustCompile(`vault\.\(\*TokenStore\)\.SaltID$`).MatchString(nc.Name) || len(nc.Args) < 3 {
+				return false
 			}
+			ok, _ := nfAll(nc.Args[2], fr, func(o eng.Origin) bool {
+				base, is := nfFieldOf(o, parentF)
+				if !is {
+					return false
+				}
+				isEntry, _ := nfIsParamOf(base, nil, f, entryIdx)
+				return isEntry
+			})
+			return ok
+		}, 2)) {
 			n++
 			c.Clause("R5", "C04.10")
-			g2All(c, f, "context the parent id is salted in", s, g2CtxOrigins(a[1]), "SaltID(ctx, entry.Parent)", `^ctxNS\{ByID\(vault\.\(\*TokenStore\)\.Lookup\(\)#0\.NamespaceID\)\}$`)
+			g2All(c, e.Fn, "context the parent id is salted in", e.Call.In, g2CtxOriginsF(e.Call.Args[1], e.Fr), "SaltID(ctx, entry.Parent)", `^ctxNS\{ByID\(vault\.\(\*TokenStore\)\.Lookup\(\)#0\.NamespaceID\)\}$`)
 		}
 		c.Floor(f, "SaltID(entry.Parent)", n, 1)
-		for _, st := range eng.Stores(f, `\.Key$`) {
-			if ok, _, _ := eng.OriginsMatch(st.Val, `^call:vault\.\(\*TokenStore\)\.SaltID#0$`); ok {
-				continue // primary key
+		for _, e := range pEffs {
+			for _, k := range c04PutKeys(e) {
+				c.Clause("R5", "C04.10")
+				nfProv(c, k.fn, "parent-index key", k.at, k.v, k.fr, `^call:vault\.\(\*TokenStore\)\.SaltID#0$`, `^const:"/"$`, `^call:fmt\.Sprintf$`)
 			}
-			c.Clause("R5", "C04.10")
-			c.Prov(f, "parent-index key", st, st.Val, `^call:vault\.\(\*TokenStore\)\.SaltID#0$`, `^const:"/"$`, `^call:fmt\.Sprintf$`)
 		}
 	}
 
 	// ---- C04.11 token creation always writes the parent index; only store/create reach storeCommon
 	if f := c.Fn("vault.(*TokenStore).create"); f != nil {
-		scs := eng.Calls(f, `vault\.\(\*TokenStore\)\.storeCommon$`)
+		scs := nfCalls(f, `vault\.\(\*TokenStore\)\.storeCommon$`)
 		c.Floor(f, "storeCommon call", len(scs), 1)
-		for _, sc := range scs {
+		for _, scc := range scs {
 			c.Clause("R12", "C04.11")
-			a := sc.Common().Args
-			if eng.Expr(a[3]) == "true" {
+			sc := scc.In
+			a := scc.Args
+			if nfIsConst(a[3], nil, "true") {
 				c.OK(f, "const{storeCommon(entry, writeSecondary=true)}", sc.Pos(), "a created token is always linked under its parent")
 			} else {
 				c.Violation(f, "const{storeCommon(entry, writeSecondary=true)}", sc.Pos(), "create persists a token with writeSecondary="+eng.Expr(a[3])+": a child written without its parent-index entry escapes the revocation chain", nil)
@@ -291,39 +330,40 @@ func runC04Gaps2(c *eng.Ctx) {
 	rootGIn := `global:namespace\.RootNamespace`
 	tokNS, rootG := `^`+tokNSIn+`$`, `^`+rootGIn+`$`
 	if f := c.Fn("vault.(*ExpirationManager).createIndexByToken"); f != nil {
-		puts := eng.Calls(f, `^<barrier\.View>\.Put$`)
+		puts := nfEffs(nfPlain(nfMust(f, nil, nfNamed(`^<barrier\.View>\.Put$`), 2)))
 		c.Floor(f, "index Put", len(puts), 1)
-		for _, p := range puts {
+		for _, e := range puts {
 			c.Clause("R5", "C04.12")
-			if arg := g2ViewArg(p, `vault\.\(\*ExpirationManager\)\.tokenIndexView$`); arg == nil {
-				c.Violation(f, "view of the token->lease index entry", p.Pos(), "the index entry is not written through tokenIndexView(ns)", nil)
+			if arg, afr := nfViewArg(e, `vault\.\(\*ExpirationManager\)\.tokenIndexView$`); arg == nil {
+				c.Violation(e.Fn, "view of the token->lease index entry", e.Call.In.Pos(), "the index entry is not written through tokenIndexView(ns)", nil)
 			} else {
-				g2All(c, f, "namespace of the token->lease index entry", p, g2NsOrigins(arg), "tokenIndexView(ns)", tokNS, rootG)
+				g2All(c, e.Fn, "namespace of the token->lease index entry", e.Call.In, g2NsOriginsF(arg, afr), "tokenIndexView(ns)", tokNS, rootG)
 			}
 		}
-		for _, st := range eng.Stores(f, `\.Value$`) {
+		for _, st := range nfFieldStores(f, c.P.Field("logical.StorageEntry.Value")) {
 			c.Clause("R5", "C04.12")
-			c.Prov(f, "value of the token->lease index entry", st, st.Val, `^field:le\.LeaseID$`)
+			nfProv(c, st.Fn, "value of the token->lease index entry", st.St, st.St.Val, st.Fr, `^field:le\.LeaseID$`)
 		}
-		for _, st := range eng.Stores(f, `\.Key$`) {
+		for _, st := range nfFieldStores(f, c.P.Field("logical.StorageEntry.Key")) {
 			c.Clause("R5", "C04.12")
-			c.Prov(f, "key of the token->lease index entry", st, st.Val, `^call:vault\.\(\*TokenStore\)\.SaltID#0$`, `^const:"/"$`)
+			nfProv(c, st.Fn, "key of the token->lease index entry", st.St, st.St.Val, st.Fr, `^call:vault\.\(\*TokenStore\)\.SaltID#0$`, `^const:"/"$`)
 		}
-		for _, s := range eng.Calls(f, `vault\.\(\*TokenStore\)\.SaltID$`) {
+		for _, e := range nfEffs(nfMust(f, nil, nfNamed(`vault\.\(\*TokenStore\)\.SaltID$`), 1)) {
 			c.Clause("R5", "C04.12")
-			g2All(c, f, "context the index key is salted in", s, g2CtxOrigins(s.Common().Args[1]), "SaltID(ctx, ...)", `^ctxNS\{`+tokNSIn+`\}$`, `^ctxNS\{`+rootGIn+`\}$`)
+			g2All(c, e.Fn, "context the index key is salted in", e.Call.In, g2CtxOriginsF(e.Call.Args[1], e.Fr), "SaltID(ctx, ...)", `^ctxNS\{`+tokNSIn+`\}$`, `^ctxNS\{`+rootGIn+`\}$`)
 		}
 	}
 	if f := c.Fn("vault.(*ExpirationManager).lookupLeasesByToken"); f != nil {
 		teNS := `^ByID\(te\.NamespaceID\)$`
-		reads := eng.Calls(f, `^<barrier\.View>\.(List|Get)$`)
-		c.Floor(f, "index reads", len(reads), 2)
-		for _, r := range reads {
+		readS := nfPlain(nfMust(f, nil, nfNamed(`^<barrier\.View>\.(List|Get)$`), 0))
+		c.Floor(f, "index reads", len(readS), 2)
+		for _, rs := range readS {
+			r := rs.At.(ssa.CallInstruction)
 			c.Clause("R5", "C04.12")
-			if arg := g2ViewArg(r, `vault\.\(\*ExpirationManager\)\.tokenIndexView$`); arg == nil {
+			if arg, afr := nfViewArg(rs.Effs[0], `vault\.\(\*ExpirationManager\)\.tokenIndexView$`); arg == nil {
 				c.Violation(f, "view the token's leases are read from", r.Pos(), "a lease-index read does not go through tokenIndexView(ns)", nil)
 			} else {
-				g2All(c, f, "namespace the token's leases are read from", r, g2NsOrigins(arg), "tokenIndexView(ns)", teNS, rootG)
+				g2All(c, f, "namespace the token's leases are read from", r, g2NsOriginsF(arg, afr), "tokenIndexView(ns)", teNS, rootG)
 			}
 			c.Clause("R4", "C04.12")
 			fe := eng.CallFailEdges(r)
@@ -333,29 +373,28 @@ func runC04Gaps2(c *eng.Ctx) {
 				c.NilResultOnEdges(f, "index read ("+eng.CalleeName(r.Common())+") failed", fe, 0, "lease list")
 			}
 		}
-		for _, s := range eng.Calls(f, `vault\.\(\*TokenStore\)\.SaltID$`) {
+		for _, s := range nfCalls(f, `vault\.\(\*TokenStore\)\.SaltID$`) {
 			c.Clause("R5", "C04.12")
-			c.Prov(f, "token the lease index is listed for", s, s.Common().Args[2], `^field:te\.ID$`)
-			g2All(c, f, "context the token is salted in", s, g2CtxOrigins(s.Common().Args[1]), "SaltID(ctx, te.ID)", `^ctxNS\{ByID\(te\.NamespaceID\)\}$`)
+			c.Prov(f, "token the lease index is listed for", s.In, s.Args[2], `^field:te\.ID$`)
+			g2All(c, f, "context the token is salted in", s.In, g2CtxOrigins(s.Args[1]), "SaltID(ctx, te.ID)", `^ctxNS\{ByID\(te\.NamespaceID\)\}$`)
 		}
 	}
 
 	// ---- C04.13 a lease is reported revoked only if its revocation handler (for an auth lease: the tree
 	// revocation) succeeded, unless force was requested; Revoke never forces and never skips the token
 	if f := c.Fn("vault.(*ExpirationManager).revokeCommon"); f != nil {
-		res := eng.Calls(f, `vault\.\(\*ExpirationManager\)\.revokeEntry$`)
+		res := nfPlain(nfSites(f, `vault\.\(\*ExpirationManager\)\.revokeEntry$`))
 		succ := eng.SuccessReturns(f, 0)
 		if c.Floor(f, "revokeEntry call", len(res), 1) && c.Floor(f, "nil-capable returns", len(succ), 1) {
 			for _, re := range res {
 				c.Clause("R4", "C04.13")
-				fe := eng.CallFailEdges(re)
 				site := "on{revokeEntry failed} success only under force"
-				if len(fe) == 0 {
-					c.Violation(f, site, re.Pos(), "the error of revokeEntry is never tested", nil)
-				} else if h := eng.Reach(eng.Query{Fn: f, StartEdges: fe, Blocked: eng.CondEdges(f, `^force$`, true), Target: eng.IsTarget(succ)}); h != nil {
+				if h, tested := nfAfterFailure(f, re, succ, 0, eng.CondEdges(f, `^force$`, true)); h != nil && !tested {
+					c.Violation(f, site, re.At.Pos(), "the error of revokeEntry is never tested", h.Witness)
+				} else if h != nil {
 					c.Violation(f, site, h.Instr.Pos(), "revokeCommon can report a lease revoked (and delete it) after revokeEntry failed without force: for an auth lease the token tree is still alive", h.Witness)
 				} else {
-					c.OK(f, site, re.Pos(), "a failed revokeEntry reaches a nil return only across force == true")
+					c.OK(f, site, re.At.Pos(), "a failed revokeEntry reaches a nil return only across force == true")
 				}
 			}
 		}
@@ -364,13 +403,14 @@ func runC04Gaps2(c *eng.Ctx) {
 		{"vault.(*ExpirationManager).Revoke", "expiration.Revoke"},
 	} {
 		if f := c.Fn(w.fn); f != nil {
-			rcs := eng.Calls(f, `vault\.\(\*ExpirationManager\)\.revokeCommon$`)
+			rcs := nfEffs(nfSites(f, `vault\.\(\*ExpirationManager\)\.revokeCommon$`))
 			c.Floor(f, "revokeCommon call", len(rcs), 1)
-			for _, rc := range rcs {
+			for _, e := range rcs {
 				c.Clause("R12", "C04.13")
-				a := rc.Common().Args
+				rc := e.Call.In
+				a := e.Call.Args
 				site := "const{revokeCommon(leaseID, force=false, skipToken=false)}"
-				if eng.Expr(a[3]) == "false" && eng.Expr(a[4]) == "false" {
+				if nfIsConst(a[3], e.Fr, "false") && nfIsConst(a[4], e.Fr, "false") {
 					c.OK(f, site, rc.Pos(), w.what+" neither forces nor skips the token")
 				} else {
 					c.Violation(f, site, rc.Pos(), w.what+" calls revokeCommon with force="+eng.Expr(a[3])+" skipToken="+eng.Expr(a[4]), nil)
@@ -388,20 +428,20 @@ func runC04Gaps2(c *eng.Ctx) {
 		if f == nil {
 			continue
 		}
-		calls := eng.Calls(f, w.callee)
+		callS := nfSites(f, w.callee)
 		succ := eng.SuccessReturns(f, 0)
-		if !c.Floor(f, "revocation call", len(calls), 1) || !c.Floor(f, "nil-capable returns", len(succ), 1) {
+		if !c.Floor(f, "revocation call", len(callS), 1) || !c.Floor(f, "nil-capable returns", len(succ), 1) {
 			continue
 		}
 		c.Clause("R3", "C04.14")
-		c.Before(f, "the revocation call", instrsOf(calls), "nil-capable return", succ)
-		for _, cl := range calls {
+		c.Before(f, "the revocation call", nfAts(callS), "nil-capable return", succ)
+		for _, e := range nfEffs(callS) {
 			c.Clause("R5", "C04.14")
-			c.Prov(f, "id revoked", cl, cl.Common().Args[2], `^call:vault\.\(\*TokenStore\)\.SaltID#0$`)
+			nfProv(c, e.Fn, "id revoked", e.Call.In, e.Call.Args[2], e.Fr, `^call:vault\.\(\*TokenStore\)\.SaltID#0$`)
 		}
-		for _, s := range eng.Calls(f, `vault\.\(\*TokenStore\)\.SaltID$`) {
+		for _, e := range nfEffs(nfSites(f, `vault\.\(\*TokenStore\)\.SaltID$`)) {
 			c.Clause("R5", "C04.14")
-			c.Prov(f, "token salted", s, s.Common().Args[2], w.idPat)
+			nfProv(c, e.Fn, "token salted", e.Call.In, e.Call.Args[2], e.Fr, w.idPat)
 		}
 	}
 
@@ -422,9 +462,8 @@ func runC04Gaps2(c *eng.Ctx) {
 		}
 		c.Clause("R2", "C04.15")
 		if c.Floor(f, "error-free answers", len(sinks), 2) {
-			c.Cut(f, "error-free answer of sys/leases/revoke", sinks, eng.Or(
-				eng.GCallOK(f, `vault\.\(\*ExpirationManager\)\.Revoke$`),
-				eng.GCallOK(f, `vault\.\(\*ExpirationManager\)\.LazyRevoke$`)), nil)
+			both := append(nfSites(f, `vault\.\(\*ExpirationManager\)\.Revoke$`), nfSites(f, `vault\.\(\*ExpirationManager\)\.LazyRevoke$`)...)
+			nfCutOK(c, f, "error-free answer of sys/leases/revoke", sinks, 1, nfOKOf(`success edge of vault\.\(\*ExpirationManager\)\.Revoke$ OR success edge of vault\.\(\*ExpirationManager\)\.LazyRevoke$`, both))
 		}
 	}
 }
@@ -432,6 +471,10 @@ func runC04Gaps2(c *eng.Ctx) {
 // g2NotRootEdges: the edges of f on which "<ns>.ID != RootNamespaceID" holds, for
 // namespaces <ns> whose origins all match wantNS (rendered by g2NsOrigins).
 func g2NotRootEdges(f *ssa.Function, rootNS, wantNS string) []eng.Edge {
+	return g2NotRootEdgesF(f, nil, rootNS, wantNS)
+}
+
+func g2NotRootEdgesF(f *ssa.Function, fr *nfFrame, rootNS, wantNS string) []eng.Edge {
 	re := regexp.MustCompile(`\.ID == "` + regexp.QuoteMeta(rootNS) + `"$`)
 	want := regexp.MustCompile(wantNS)
 	var out []eng.Edge
@@ -455,7 +498,7 @@ func g2NotRootEdges(f *ssa.Function, rootNS, wantNS string) []eng.Edge {
 			if !ok {
 				continue
 			}
-			ds := g2NsOrigins(fa.X)
+			ds := g2NsOriginsF(fa.X, fr)
 			good = len(ds) > 0
 			for _, d := range ds {
 				if !want.MatchString(d) {
@@ -503,10 +546,11 @@ func g2KeySprintfs(v ssa.Value) []ssa.Instruction {
 func runC04Gaps3(c *eng.Ctx, rootNS string) {
 	// ---- C04.16 RevokeByToken expires every lease in the namespace the lease id names
 	if f := c.Fn("vault.(*ExpirationManager).RevokeByToken"); f != nil {
-		lzs := eng.Calls(f, `vault\.\(\*ExpirationManager\)\.lazyRevokeInternal$`)
-		for _, lz := range lzs {
+		lzs := nfCalls(f, `vault\.\(\*ExpirationManager\)\.lazyRevokeInternal$`)
+		for _, lzc := range lzs {
 			c.Clause("R5", "C04.16")
-			a := lz.Common().Args
+			lz := lzc.In
+			a := lzc.Args
 			site := "context of lazyRevokeInternal = the lease's own namespace"
 			ok, why := true, ""
 			os := eng.Origins(a[1])
@@ -580,8 +624,9 @@ func runC04Gaps3(c *eng.Ctx, rootNS string) {
 		}
 		fe := eng.Feasible(f, map[string]bool{`^vault\.IsSSCToken\(\)$`: true})
 		n := 0
-		for _, sp := range eng.Calls(f, `^namespace\.SplitIDFromString$`) {
-			op := sp.Common().Args[0]
+		for _, spc := range nfCalls(f, `^namespace\.SplitIDFromString$`) {
+			sp := spc.In
+			op := spc.Args[0]
 			tokenSite := false
 			for _, o := range eng.Origins(op) {
 				if isTokenOrigin(o) {
@@ -623,20 +668,15 @@ func runC04Gaps3(c *eng.Ctx, rootNS string) {
 	if top := c.Fn("vault.(*TokenStore).handleTidy"); top != nil {
 		n := 0
 		for _, f := range g2Nested(top) {
-			var dels []ssa.Instruction
-			for _, d := range eng.Calls(f, `^<barrier\.View>\.Delete$`) {
-				if g2ViewArg(d, `vault\.\(\*TokenStore\)\.parentView$`) != nil {
-					dels = append(dels, d)
-				}
-			}
+			dels := nfAts(nfViewOps(f, nil, "Delete", `vault\.\(\*TokenStore\)\.parentView$`))
 			if len(dels) == 0 {
 				continue
 			}
 			n += len(dels)
-			var childLk, parentLk []ssa.CallInstruction
-			for _, l := range eng.Calls(f, `vault\.\(\*TokenStore\)\.lookupInternal$`) {
-				a := l.Common().Args
-				if eng.Expr(a[3]) != "true" {
+			var childLk, parentLk []nfCall
+			for _, l := range nfCalls(f, `vault\.\(\*TokenStore\)\.lookupInternal$`) {
+				a := l.Args
+				if !nfIsConst(a[3], nil, "true") {
 					continue // by plain id (accessor pass)
 				}
 				if ok, _, _ := eng.OriginsMatch(a[2], `^call:strings\.TrimSuffix$`); ok {
@@ -648,8 +688,9 @@ func runC04Gaps3(c *eng.Ctx, rootNS string) {
 			if !c.Floor(f, "lookups of the listed children", len(childLk), 1) || !c.Floor(f, "lookup of the parent", len(parentLk), 1) {
 				continue
 			}
-			for _, l := range childLk {
-				a := l.Common().Args
+			for _, lc := range childLk {
+				l := lc.In
+				a := lc.Args
 				c.Clause("R5", "C04.17")
 				c.Prov(f, "child id looked up by tidy", l, a[2], `^call:namespace\.SplitIDFromString#0$`)
 				ds := g2CtxOrigins(a[1])
@@ -668,11 +709,11 @@ func runC04Gaps3(c *eng.Ctx, rootNS string) {
 			c.Clause("R2", "C04.17")
 			cg := eng.Guard{Desc: "success edge of the child lookup"}
 			for _, l := range childLk {
-				cg.Edges = append(cg.Edges, eng.CallOKEdges(l)...)
+				cg.Edges = append(cg.Edges, eng.CallOKEdges(l.In)...)
 			}
 			pg := eng.Guard{Desc: "success edge of the parent lookup"}
 			for _, l := range parentLk {
-				pg.Edges = append(pg.Edges, eng.CallOKEdges(l)...)
+				pg.Edges = append(pg.Edges, eng.CallOKEdges(l.In)...)
 			}
 			c.Cut(f, "tidy: delete of a parent-index entry", dels, cg, nil)
 			c.Cut(f, "tidy: delete of a parent-index entry", dels, pg, nil)
@@ -691,44 +732,63 @@ func runC04Gaps3(c *eng.Ctx, rootNS string) {
 		if f == nil {
 			continue
 		}
-		notRoot := g2NotRootEdges(f, rootNS, w.tokNS)
-		var sps, ops []ssa.Instruction
-		for _, op := range eng.Calls(f, `^<barrier\.View>\.`+w.op+`$`) {
-			if g2ViewArg(op, `vault\.\(\*TokenStore\)\.parentView$`) == nil {
-				continue
-			}
-			var key ssa.Value
+		// The Put/Delete is found wherever it stands (storeCommon, a closure, a helper of this package); the
+		// rule is evaluated in the function that builds the key: there the suffix is appended, there the
+		// namespace is tested, and there the write happens (through the call that leads to it)
+		type scope struct {
+			fr       *nfFrame
+			sps, ops []ssa.Instruction
+		}
+		scopes := map[*ssa.Function]*scope{}
+		var order []*ssa.Function
+		nOps := 0
+		for _, e := range nfEffs(nfViewOps(f, nil, w.op, `vault\.\(\*TokenStore\)\.parentView$`)) {
+			var keys []c04Key
 			if w.op == "Put" {
-				a := op.Common().Args
-				for _, kv := range eng.StructLitField(a[len(a)-1], "Key") {
-					key = kv
-				}
+				keys = c04PutKeys(e)
 			} else {
-				a := op.Common().Args
-				key = a[len(a)-1]
+				a := e.Call.Args
+				kv, kfr := nfResolveParam(a[len(a)-1], e.Fr)
+				keys = []c04Key{{v: kv, fr: kfr, fn: nfValueFn(kv)}}
 			}
-			if key == nil {
-				continue
-			}
-			if s := g2KeySprintfs(key); len(s) > 0 {
-				sps = append(sps, s...)
-				ops = append(ops, op)
+			for _, k := range keys {
+				sp := g2KeySprintfs(k.v)
+				if len(sp) == 0 || k.fn == nil {
+					continue
+				}
+				op := nfChainInstr(e, k.fn)
+				if op == nil {
+					continue
+				}
+				sc := scopes[k.fn]
+				if sc == nil {
+					sc = &scope{fr: k.fr}
+					scopes[k.fn] = sc
+					order = append(order, k.fn)
+				}
+				sc.sps = append(sc.sps, sp...)
+				sc.ops = append(sc.ops, op)
+				nOps++
 			}
 		}
 		c.Clause("R2", "C04.18")
-		if !c.Floor(f, "parent-index "+w.op+" with a suffixed key", len(ops), 1) {
+		if !c.Floor(f, "parent-index "+w.op+" with a suffixed key", nOps, 1) {
 			continue
 		}
-		site := "suffix of the parent-index key appended exactly when the token's namespace is not root"
-		if len(notRoot) == 0 {
-			c.Violation(f, site, sps[0].Pos(), "no branch tests <token namespace>.ID != RootNamespaceID: the readers of the parent index (tree walk, orphaning loop, tidy) take a key without suffix to name a root-namespace token, so the writer must suffix every other token", nil)
-			continue
-		}
-		c.Cut(f, "namespace suffix of the parent-index key", sps, eng.Guard{Desc: "[token namespace != root]", Edges: notRoot}, nil)
-		if h := eng.Reach(eng.Query{Fn: f, StartEdges: notRoot, Barriers: sps, Target: eng.IsTarget(ops)}); h != nil {
-			c.Violation(f, site, h.Instr.Pos(), "a token outside the root namespace can be indexed under a key without its namespace suffix", h.Witness)
-		} else {
-			c.OK(f, site, sps[0].Pos(), "every path from the not-root edge to the index "+w.op+" passes the suffixing")
+		for _, k := range order {
+			sc := scopes[k]
+			notRoot := g2NotRootEdgesF(k, sc.fr, rootNS, w.tokNS)
+			site := "suffix of the parent-index key appended exactly when the token's namespace is not root"
+			if len(notRoot) == 0 {
+				c.Violation(k, site, sc.sps[0].Pos(), "no branch tests <token namespace>.ID != RootNamespaceID: the readers of the parent index (tree walk, orphaning loop, tidy) take a key without suffix to name a root-namespace token, so the writer must suffix every other token", nil)
+				continue
+			}
+			c.Cut(k, "namespace suffix of the parent-index key", sc.sps, eng.Guard{Desc: "[token namespace != root]", Edges: notRoot}, nil)
+			if h := eng.Reach(eng.Query{Fn: k, StartEdges: notRoot, Barriers: sc.sps, Target: eng.IsTarget(sc.ops)}); h != nil {
+				c.Violation(k, site, h.Instr.Pos(), "a token outside the root namespace can be indexed under a key without its namespace suffix", h.Witness)
+			} else {
+				c.OK(k, site, sc.sps[0].Pos(), "every path from the not-root edge to the index "+w.op+" passes the suffixing")
+			}
 		}
 	}
 	// readers: whoever splits an index key looks the id part up in the namespace named by the suffix;
@@ -744,8 +804,9 @@ func runC04Gaps3(c *eng.Ctx, rootNS string) {
 		}
 		n := 0
 		for _, f := range g2Nested(top) {
-			for _, l := range eng.Calls(f, `vault\.\(\*TokenStore\)\.(lookupInternal|revokeInternal)$`) {
-				a := l.Common().Args
+			for _, lc := range nfCalls(f, `vault\.\(\*TokenStore\)\.(lookupInternal|revokeInternal)$`) {
+				l := lc.In
+				a := lc.Args
 				if ok, _, _ := eng.OriginsMatch(a[2], `^call:namespace\.SplitIDFromString#0$`); !ok {
 					continue
 				}
@@ -768,4 +829,38 @@ func runC04Gaps3(c *eng.Ctx, rootNS string) {
 		}
 		c.Floor(top, "lookups keyed by a split index key", n, 1)
 	}
+}
+
+// c04Key is a storage key value with the function it is built in and that
+// function's call chain.
+type c04Key struct {
+	v  ssa.Value
+	fr *nfFrame
+	fn *ssa.Function
+	at ssa.Instruction
+}
+
+// c04PutKeys: the values stored into the Key field of the storage entry handed
+// to Put effect e; the entry is followed through the parameters of the closure /
+// helper the Put stands in to the place where it is built.
+func c04PutKeys(e nfEff) []c04Key {
+	a := e.Call.Args
+	if len(a) == 0 {
+		return nil
+	}
+	ent, fr := nfResolveParam(a[len(a)-1], e.Fr)
+	var out []c04Key
+	for _, kv := range eng.StructLitField(ent, "Key") {
+		fn := nfValueFn(ent)
+		var at ssa.Instruction = e.Call.In
+		if fn != nil {
+			if in := nfChainInstr(e, fn); in != nil {
+				at = in
+			}
+		} else {
+			fn = e.Fn
+		}
+		out = append(out, c04Key{v: kv, fr: fr, fn: fn, at: at})
+	}
+	return out
 }
